@@ -648,6 +648,48 @@ def run_views(case):
 
 
 
+# ------------------------------------------------------------------------------------------- lines through an isotropic point
+ISO = [([1, 1j, 0, 0], 2), ([1, -1j, 0, 0], 2), ([1, 0, 1j, 0], 1), ([1j, 0, 1, 0], 1), ([0, 1, 1j, 0], 0), ([0, 1j, -1, 0], 0), ([3, 4, 5j, 0], None), ([5j, 12, 13, 0], None)]
+
+
+@st.composite
+def iso_case(draw, tier="quick"):
+    return {"k": draw(st.integers(0, len(ISO) - 1)), "p": [draw(C.ints(6)) for _ in range(3)], "q": [draw(C.ints(6)) for _ in range(3)], "h": draw(C.ints(5)), "f": draw(st.sampled_from([1, 2, -1, 1j, 1 + 1j])), "swap": draw(st.booleans()),
+            "inplane": draw(st.booleans())}
+
+
+def run_iso(c):
+    """two lines of 3-space through a common isotropic point k (a point of the absolute conic: k . k = 0, e.g. (1, i, 0, 0) - the circular points of
+    the planes z = const) and two finite points: they are coplanar and meet exactly in k; with `inplane` both finite points lie in one coordinate
+    plane translate, so that the common plane has a vanishing coefficient"""
+    kv, ax = ISO[c["k"] % len(ISO)]
+    kv = np.array(kv, dtype=complex)
+    p, q = np.array([float(x) for x in c["p"]]), np.array([float(x) for x in c["q"]])
+    if c["inplane"] and ax is not None:
+        p[ax] = q[ax] = float(c["h"])
+    if np.linalg.matrix_rank(np.stack([np.append(p, 1), np.append(q, 1), kv])) < 3:
+        raise Skip("collinear")
+    K = Point(kv * c["f"])
+    l, f = call("iso:join(p,k)", join, Point(*p), K)
+    m, g = call("iso:join(q,k)", join, Point(*q), K)
+    if f or g:
+        return [x for x in (f, g) if x]
+    site = "isotropic-point:meet-of-two-lines-through-it" + (":common-plane-with-a-vanishing-coefficient" if c["inplane"] and ax is not None else "")
+    r, f = call(site, (lambda: meet(m, l)) if c["swap"] else (lambda: meet(l, m)))
+    if f:
+        return [f]
+    ck = Checker()
+    ck.check(np.asarray(r.array).shape == (4,) and C.peq_all(np.asarray(r.array, complex), kv, 1, 1e-9), site + ":value", np.asarray(r.array).tolist())
+    e, f = call("iso:join(l,m)", join, l, m)
+    if f:
+        ck.add(f)
+    else:
+        for name, x in (("p", np.append(p, 1)), ("q", np.append(q, 1)), ("k", kv)):
+            ck.check(abs(np.dot(np.asarray(e.array, complex), x)) < 1e-9 * max(1.0, float(np.max(np.abs(x)))), site + ":common-plane-contains-" + name, np.asarray(e.array).tolist())
+    return ck.result()
+
+
+
 # ------------------------------------------------------------------------------------------- integer types, full range
 INT_RANGES = {"int8": (-128, 127), "uint8": (0, 255), "int16": (-32768, 32767), "uint16": (0, 65535), "int32": (-2**31, 2**31 - 1), "uint32": (0, 2**32 - 1), "int64": (-2**40, 2**40)}
 
@@ -837,6 +879,9 @@ LAWS = [
     Law("arguments_are_views_of_one_collection", lambda tier: views_case(tier), run_views, lambda c: True, lambda c: [f"d{c['d']}", c["what"]], {"quick": 1200, "thorough": 20000},
         "join / meet whose arguments are overlapping views of one collection (edges of a polyline, planes through consecutive triples, corners of consecutive edges, strided and reversed views): exactly the span / intersection at every position", shard=300,
         mandatory=("polyline", "triples", "dual")),
+    Law("lines_through_an_isotropic_point", lambda tier: iso_case(tier), run_iso, lambda c: True, lambda c: [f"k{c['k']}"] + (["common-plane-with-a-vanishing-coefficient"] if c["inplane"] and ISO[c["k"] % len(ISO)][1] is not None else []),
+        {"quick": 600, "thorough": 8000}, "two 3D lines through a common isotropic point (k . k = 0) and two finite points: meet = k, join = the common plane - also when that plane is a coordinate plane translate", shard=200,
+        mandatory=("common-plane-with-a-vanishing-coefficient",)),
     Law("integer_types_full_range", lambda tier: it_case(tier), run_it, lambda c: max(abs(x) for el in c["elems"] for v in el for x in v) > 181,
         lambda c: [c["kind"], c["dt"]] + (["collection"] if len(c["elems"]) > 1 else []) + ([f"first-argument-{c['mixed']}"] if c.get("mixed") else [])
         + ([f"{c['dt']}:products-beyond-the-type"] if max(abs(x) for el in c["elems"] for v in el for x in v) ** 2 > INT_RANGES[c["dt"]][1] else []),
